@@ -104,4 +104,26 @@ def register(P):
             ctx.ensure("negative-order:recurrence(Gamma(s+1,x)-x^s*e^-x)/s",
                        ctx.eq(got, (up - m.pow(x, s) * m.exp(-x)) / s))
 
+    @contract(P, "special.exp_int/values-against-the-defining-integral(mpmath)",
+              params={"s": [1.05, 1.1, 1.15, 1.3, 1.5, 1.75, 2.0, 2.5, 3.0, 3.7, 5.5, 10.0, 26.0, 1.0000001, 2.9999999]},
+              functions=FN, bounded="grid: 15 orders s > 1 (the orders 1 + hurst/alpha-type expressions of the TPL and "
+                                    "Integral models can take) x 27 arguments 1e-16 .. 100; reference mpmath.expint at 30 digits; "
+                                    "tolerance 1e-5 relative + 1e-9 absolute")
+    def exp_int_values(ctx, s):
+        """bounded native stand-in for the numerically motivated switches inside exp_int (small-x limit,
+        large-x asymptote, near-integer orders): the value is E_s(x) of the documented defining integral"""
+        import mpmath as mp
+        mp.mp.dps = 30
+        X = [10.0 ** e for e in range(-16, 2)] + [3e-13, 2.0, 5.0, 20.0, 29.0, 31.0, 40.0, 100.0, 7e-11]
+        bad = []
+        with symrun.native():
+            for x in X:
+                got = float(np.asarray(sp.exp_int(s, np.array([x]))).ravel()[0])
+                ref = float(mp.expint(s, x))
+                if not abs(got - ref) <= 1e-9 + 1e-5 * abs(ref):
+                    bad.append((x, got, ref))
+        if bad and ctx.mode == "conc":
+            ctx.results["first-deviation"] = repr(bad[0])
+        ctx.ensure("E_s(x)-within-tolerance-on-the-grid", not bad)
+
     return exp_int_dispatch, inc_gamma_dispatch
